@@ -710,7 +710,10 @@ fn decode_chunk(c: &Case, b: &[u8], next_idx: &mut std::collections::BTreeMap<(u
                 }
                 last = t;
                 match (k.tag, k.ty) {
-                    (Some(0), 0x04..=0x07) => flags.push('i'),
+                    (Some(0), 0x04..=0x07) => {
+                        flags.push('i');
+                        flags.push_str(&(1usize << (k.ty & 3)).to_string());
+                    }
                     (Some(1), 0x16) => {
                         flags.push('a');
                         for r in &k.kids {
